@@ -423,7 +423,7 @@ compile:
 	// While we're running, also update task stats directly into the tasks's status.
 	// TODO(marius): also aggregate stats across all tasks.
 	statsCtx, statsCancel := context.WithCancel(ctx)
-	go monitorTaskStats(statsCtx, m, task)
+	go monitorTaskStats(statsCtx, m, task.Name, task.Status)
 
 	b.sess.tracer.Event(m, task, "B")
 	task.Set(TaskRunning)
@@ -460,8 +460,10 @@ compile:
 }
 
 // monitorTaskStats monitors stats (e.g. records read/written) of the task
-// running on m, updating task's status until ctx is done.
-func monitorTaskStats(ctx context.Context, m *sliceMachine, task *Task) {
+// running on m, updating the task's status until ctx is done. The status is
+// passed by the runner, which owns the task: the monitor may outlive the run,
+// and a later evaluation that resubmits the task replaces Task.Status.
+func monitorTaskStats(ctx context.Context, m *sliceMachine, name TaskName, taskStatus *status.Task) {
 	wait := func() {
 		select {
 		case <-time.After(statsPollInterval):
@@ -470,13 +472,13 @@ func monitorTaskStats(ctx context.Context, m *sliceMachine, task *Task) {
 	}
 	for ctx.Err() == nil {
 		var vals *stats.Values
-		err := m.RetryCall(ctx, "Worker.TaskStats", task.Name, &vals)
+		err := m.RetryCall(ctx, "Worker.TaskStats", name, &vals)
 		if err != nil {
 			log.Error.Printf("error getting task stats from %s: %v", m.Addr, err)
 			wait()
 			continue
 		}
-		task.Status.Printf("%s: %s", m.Addr, *vals)
+		taskStatus.Printf("%s: %s", m.Addr, *vals)
 		wait()
 	}
 }
